@@ -141,6 +141,15 @@ func TestC06(t *testing.T) {
 	rapid.Check(t, func(t *rapid.T) {
 		d := genDoc(o).Draw(t, "doc")
 		ensureAudible(&d)
+		if coin(t, "sub-tick-chord", 8) {
+			// a chord of 0 ticks (shorter than half a tick) must not stretch the tracks it lands on
+			for n := rapid.IntRange(1, 2).Draw(t, "nsub"); n > 0; n-- {
+				j := rapid.IntRange(0, len(d.Insts)-1).Draw(t, "sub-at")
+				if d.Insts[j].Chord != nil {
+					d.Insts[j].Values = rapid.SampledFrom([][]Frac{{{1, 1921}}, {{1, 2048}}, {{3, 7000}}, {{1, 5000}, {1, 5000}}}).Draw(t, "sub-values")
+				}
+			}
+		}
 		if coin(t, "trailing-rest", 40) {
 			d.Insts = append(d.Insts, Inst{Values: genValues(2).Draw(t, "trail")})
 		}
